@@ -74,7 +74,15 @@ func TestC29Child(t *testing.T) {
 			var err error
 			if w.Level == "api" {
 				if cmd == nil {
-					cmd = test.MustRunCommand()
+					// test.MustRunCommand, but with room in the key translation file (the test
+					// helper gives it 140 kB; the keyed workloads use new keys in every run)
+					cmd = test.NewCommandNode(true)
+					cmd.Config.Cluster.Disabled = true
+					cmd.Config.Metric.Diagnostics = false
+					cmd.Config.Translation.MapSize = 256 << 20
+					if err := cmd.Start(); err != nil {
+						t.Fatalf("starting the server: %v", err)
+					}
 				}
 				tg, err = newAPITarget(w, cmd)
 			} else {
@@ -455,6 +463,20 @@ func run(t *testing.T, mode string) {
 		}
 		all = append(all, ws...)
 	}
+	// workloads whose clients make the first use of new row keys at the same time (each
+	// several times: the overlap inside the translation is a matter of microseconds)
+	if mode == "lin" {
+		nKey := 5
+		if behav.Thorough() {
+			nKey = 60
+		}
+		nKey = behav.EnvInt("VERIF_NKEYED", nKey)
+		for i := 0; i < nKey; i++ {
+			w := GenerateKeyed(seed, len(all))
+			w.Reps = behav.EnvInt("VERIF_KEYED_REPS", 4)
+			all = append(all, w)
+		}
+	}
 	// binding self-test: a few more histories in which one recorded result is falsified;
 	// they go to a file of their own, which TLC must reject
 	nSelf := 0
@@ -512,6 +534,9 @@ func run(t *testing.T, mode string) {
 		}
 		if w.ColKeys {
 			res.Cover("api:column_keys")
+		}
+		if w.RowKeys {
+			res.Cover("api:row_keys_first_use")
 		}
 		if !bad[w.Idx] {
 			res.CountEval()
